@@ -80,12 +80,48 @@ def _server(deploy, backend, recycle):
     from vizier._src.service import vizier_server
     holder = svc.HarnessPolicyFactory(svc.Plan())
     url = None if backend == 'ram' else 'sqlite:///:memory:'
-    srv = vizier_server.DistributedPythiaVizierServer(
+    srv = _start_distributed(lambda: vizier_server.DistributedPythiaVizierServer(
         database_url=url, policy_factory=holder,
-        early_stop_recycle_period=datetime.timedelta(seconds=recycle))
+        early_stop_recycle_period=datetime.timedelta(seconds=recycle)), holder)
     _SERVERS[key] = (srv, holder)
   srv, holder = _SERVERS[key]
   return srv._servicer, holder, (lambda: None)  # pylint: disable=protected-access
+
+
+def _start_distributed(make, holder, attempts=6):
+  """Starts the split server and proves that the Vizier side reaches its own
+  Pythia side (portpicker can hand the same "unused" port to two of the 16
+  worker processes that start servers at the same moment; a server wired to a
+  stranger's port is discarded and started again)."""
+  from harness import svc
+  from harness import service_model as sm
+  vsp = svc.vsp
+  last = None
+  for k in range(attempts):
+    try:
+      srv = make()
+    except Exception as e:  # pylint: disable=broad-except
+      last = repr(e)[:300]
+      continue
+    s = srv._servicer  # pylint: disable=protected-access
+    try:
+      holder.plan = svc.Plan()
+      owner = 'probe%d' % k
+      svc.create_study(s, owner, 's')
+      o = s.SuggestTrials(vsp.SuggestTrialsRequest(
+          parent=sm.sname(owner, 's'), client_id='probe', suggestion_count=1))
+      if o.done and not o.HasField('error') and holder.plan.suggest_calls == 1:
+        return srv
+      last = str(o)[:300]
+    except Exception as e:  # pylint: disable=broad-except
+      last = repr(e)[:300]
+    try:
+      srv._server.stop(0)  # pylint: disable=protected-access
+      srv._pythia_server.stop(0)  # pylint: disable=protected-access
+    except Exception:  # pylint: disable=broad-except
+      pass
+  raise RuntimeError('harness: could not start a working split server: %s'
+                     % last)
 
 
 class _Wedge(Exception):
